@@ -19,6 +19,11 @@
 //	                             store-if-absent of the reassembly entry      — specification: Cache.LoadOrStore
 //	              cload:k      = the look-up of processReceivedMessage       — specification: Cache.Load
 //	              sweep[:t]    = BlockWise.CheckExpirations
+//	kind midtab   udp/client's table of pending message IDs on a real Conn (overlay exports):
+//	              pend:k:id    = the registration writeMessage makes for a confirmable message — specification: LoadOrStore(k,id)
+//	              take:k       = handleSpecialMessages for an acknowledgement with message ID k; the result says whether this
+//	                             call obtained the element (its handler ran)       — specification: LoadAndDelete(k)
+//	              has:k        = plain look-up                                    — specification: Load(k)
 //	kind obstab   net/observation's table of observations (a real Handler over a client that answers at once):
 //	              reg:k:id     = NewObservation with token k                 — specification: LoadOrStore(k,id)
 //	              cancel:k     = Cancel on the FIRST observation registered under k; the result says whether the deregistration
@@ -42,6 +47,7 @@ import (
 	"github.com/plgd-dev/go-coap/v3/net/observation"
 	"github.com/plgd-dev/go-coap/v3/net/responsewriter"
 	udpclient "github.com/plgd-dev/go-coap/v3/udp/client"
+	"verifharness/internal/mem"
 )
 
 func newCoopObject(kind string) object {
@@ -56,6 +62,9 @@ func newCoopObject(kind string) object {
 		return &bwrecvObj{cl: c, bw: blockwise.New(c, time.Hour, func(error) {}, nil), vu: map[int]int{}}
 	case "obstab":
 		return newObstabObj()
+	case "midtab":
+		cc, _ := mem.NewUDPConn(mem.UDPOpts{})
+		return &midtabObj{cc: cc, idOf: map[int]int{}}
 	case "mapcb":
 		// the plain map; programs of this kind use lwfr (a callback with a scheduling point inside the critical section,
 		// which the step model does not have): judged, not replayed
@@ -146,7 +155,7 @@ func (o *bwsendObj) histOp(f []string) string {
 	switch f[0] {
 	case "hold":
 		return "los:" + f[1] + ":" + f[2]
-	case "copy", "code":
+	case "copy", "code", "cont":
 		return "load:" + f[1]
 	}
 	return strings.Join(f, ":")
@@ -165,6 +174,7 @@ func (o *bwsendObj) exec(f []string, e *env) string {
 		if err := req.SetPath("/x"); err != nil {
 			panic(err)
 		}
+		req.SetBody(bytes.NewReader(make([]byte, 40))) // small enough to go out in one piece; `cont` reads a 16-byte block of it
 		entered := false
 		_, err := o.bw.Do(req, blockwise.SZX1024, 65536, func(*pool.Message) (*pool.Message, error) {
 			// the request is registered: the first operation of the specification is over, the second begins when this
@@ -187,6 +197,19 @@ func (o *bwsendObj) exec(f []string, e *env) string {
 		id := int(m.Code())
 		if !bytes.Equal(m.Token(), tokenOf(k)) {
 			id = 0 // copied from a message that is not the stored request any more
+		}
+		o.cl.p.ReleaseMessage(m)
+		return "v=" + strconv.Itoa(id)
+	case "cont":
+		// continueSendingMessage: the peer asks for a block of the request registered under the token; the block message is
+		// built from the registered request (code, options, token, body) - specification: Load(k)
+		m := o.bw.VerifContinueSending(tokenOf(k))
+		if m == nil {
+			return "v=nil"
+		}
+		id := int(m.Code())
+		if !bytes.Equal(m.Token(), tokenOf(k)) {
+			id = 0
 		}
 		o.cl.p.ReleaseMessage(m)
 		return "v=" + strconv.Itoa(id)
@@ -353,4 +376,57 @@ func (o *obstabObj) exec(f []string, e *env) string {
 		return fmt.Sprintf("v=%d", o.idOf[ob])
 	}
 	panic("bad obstab op " + strings.Join(f, ":"))
+}
+
+// ---------------------------------------------------------------- udp/client midHandlerContainer
+
+type midtabObj struct {
+	cc   *udpclient.Conn
+	idOf map[int]int
+}
+
+func (o *midtabObj) shutdown() { _ = o.cc.Close() }
+
+func (o *midtabObj) histOp(f []string) string {
+	switch f[0] {
+	case "pend":
+		return "los:" + f[1] + ":" + f[2]
+	case "take":
+		return "lad:" + f[1]
+	case "has":
+		return "load:" + f[1]
+	}
+	return strings.Join(f, ":")
+}
+
+func (o *midtabObj) exec(f []string, e *env) string {
+	k := atoi(f[1])
+	switch f[0] {
+	case "pend":
+		id := atoi(f[2])
+		if o.cc.VerifPendMid(int32(k), func() { *e.curLog() = append(*e.curLog(), strconv.Itoa(id)) }) {
+			o.idOf[k] = id
+			return fmt.Sprintf("a=%d/false", id)
+		}
+		return fmt.Sprintf("a=%d/true", o.idOf[k])
+	case "take":
+		r := pool.NewMessage(context.Background())
+		r.SetType(message.Acknowledgement)
+		r.SetCode(codes.Content)
+		r.SetMessageID(int32(k))
+		r.SetToken(tokenOf(k))
+		log := e.curLog()
+		before := len(*log)
+		o.cc.VerifHandleSpecialMessages(r)
+		if len(*log) > before {
+			return "v=" + (*log)[len(*log)-1] // this call obtained the pending element: its handler ran
+		}
+		return "v=nil"
+	case "has":
+		if o.cc.VerifHasMid(int32(k)) {
+			return fmt.Sprintf("v=%d", o.idOf[k])
+		}
+		return "v=nil"
+	}
+	panic("bad midtab op " + strings.Join(f, ":"))
 }
